@@ -85,7 +85,7 @@ static void run_case(vf::Ctx& ctx, const Fac& fac)
         const int len = (int) r.range(0, ctx.thorough ? 6 : 4);
         for (int s = 0; s < len; s++)
         {
-            const int what = (int) r.range(0, 6);
+            const int what = (int) r.range(0, 7);
             try
             {
                 if (what == 0) { es->init(); word += "I"; }
@@ -117,6 +117,20 @@ static void run_case(vf::Ctx& ctx, const Fac& fac)
                     bool threw = false;
                     try { es->compute(r.pick(fac.select_rules()), r.pick(maxits), r.pick(tols), bads); } catch (const std::invalid_argument&) { threw = true; }
                     word += threw ? "s" : "S";
+                }
+                else if (what == 7)
+                {
+                    // a compute() that throws from the inside: the k-th iteration-limit question of the dense eigen kernels is answered with 0 (guarded failpoint),
+                    // so the Ritz-pair extraction of some restart gives up with runtime_error in the middle of the iteration
+                    if (word.empty()) { es->init(); word += "I"; }
+                    vfk::arm(r.range(1, 12));
+                    bool threw = false;
+                    try { es->compute(r.pick(fac.select_rules()), r.pick(maxits), r.pick(tols), r.pick(fac.sort_rules())); }
+                    catch (const std::runtime_error&) { threw = true; }
+                    catch (...) { vfk::disarm(); throw; }
+                    const long hits = vfk::disarm();
+                    word += threw ? "k" : (hits ? "Q" : "K");
+                    if (threw) ctx.count("prehistory_compute_ended_by_kernel_failure");
                 }
                 else
                 {
